@@ -552,6 +552,79 @@ fn bespoke_spellings(ctx: &Ctx, runs: &AtomicU64) {
             }
         }
     }
+    // `set`: every sequence of up to three option arguments over the three styles (short cluster,
+    // -o/+o name, --name/++name) in every order, against the obvious meaning (each argument sets or
+    // clears its options, left to right; positional parameters and everything else untouched)
+    {
+        // (text, [(option name as listed by the snapshot, on?)])
+        let toks: [(&str, &[(&str, bool)]); 14] = [
+            ("-e", &[("errexit", true)]),
+            ("+e", &[("errexit", false)]),
+            ("-u", &[("unset", false)]),
+            ("+u", &[("unset", true)]),
+            ("-eu", &[("errexit", true), ("unset", false)]),
+            ("-o errexit", &[("errexit", true)]),
+            ("+o errexit", &[("errexit", false)]),
+            ("-o nounset", &[("unset", false)]),
+            ("--errexit", &[("errexit", true)]),
+            ("++errexit", &[("errexit", false)]),
+            ("--nounset", &[("unset", false)]),
+            ("++nounset", &[("unset", true)]),
+            ("--noclobber", &[("clobber", false)]),
+            ("-C", &[("clobber", false)]),
+        ];
+        let n = toks.len();
+        let mut seqs: Vec<Vec<usize>> = vec![];
+        for a in 0..n {
+            seqs.push(vec![a]);
+            for b in 0..n {
+                seqs.push(vec![a, b]);
+                for c in 0..n {
+                    seqs.push(vec![a, b, c]);
+                }
+            }
+        }
+        seqs.par_iter().for_each(|seq| {
+            for tail in ["", " --", " -- x y", " x y"] {
+                let line = format!("set {}{tail}", seq.iter().map(|i| toks[*i].0).collect::<Vec<_>>().join(" "));
+                let script = format!("set -- p1 p2\n{line}\nsnap after\n");
+                let r = vsh::run_once(&Setup::script(&script), &Default::default());
+                runs.fetch_add(1, Relaxed);
+                let tr = r.all_trace();
+                let snap = tr.iter().find(|t| t.starts_with("snap after ")).cloned().unwrap_or_default();
+                let sec = parse_snapshot(&snap.replace("snap after ", ""));
+                let opts: Vec<&str> = sec.get("options").map(|s| s.split(',').collect()).unwrap_or_default();
+                let mut want: BTreeMap<&str, bool> = [("errexit", false), ("unset", true), ("clobber", true)].into_iter().collect();
+                for i in seq {
+                    for (o, on) in toks[*i].1 {
+                        want.insert(o, *on);
+                    }
+                }
+                let params_want = match tail {
+                    "" => "[\"p1\", \"p2\"]",
+                    " --" => "[]",
+                    _ => "[\"x\", \"y\"]",
+                };
+                let opts_ok = want.iter().all(|(o, on)| opts.contains(o) == *on);
+                let params_ok = sec.get("params").map(|s| s.as_str()) == Some(params_want);
+                if !opts_ok || !params_ok || !r.stderr.is_empty() || sec.get("status").map(|s| s.as_str()) != Some("0") {
+                    ctx.violation(
+                        "c20:set-option-sequence",
+                        &format!("`{line}`: options {opts:?} (expected {want:?}), positional parameters {:?} (expected {params_want}), status {:?}, stderr {:?}", sec.get("params"), sec.get("status"), r.stderr),
+                        json!({"builtin": "pwd", "spelling": line, "script": script}),
+                    );
+                }
+            }
+        });
+        // an unknown option or a missing option name after a valid long option is still an error
+        for bad in ["set --errexit -Z", "set --errexit -o", "set ++errexit -o nosuchoption", "set -e --nosuch", "set --errexit +Z"] {
+            let (same, o) = unchanged(&u, bad);
+            runs.fetch_add(1, Relaxed);
+            if o.status == "st:0" || o.stderr_empty || !same {
+                ctx.violation("c20:bespoke-malformed", &format!("malformed `{bad}`: status {:?}, diagnostic {}, unchanged {same}", o.status, !o.stderr_empty), json!({"line": bad}));
+            }
+        }
+    }
     for bad in [
         "set -Z", "set -o nosuchoption", "set --nosuch", "set -o", "kill -s NOSUCHSIG $$", "kill -s", "kill", "set --no",
         // letters and digits outside ASCII are alphanumeric too: these are not spellings of errexit / xtrace
